@@ -36,6 +36,10 @@ type c03Case struct {
 	// Retry: after the call, the caller sends every message that was not delivered once more (faults
 	// gone, a fault-free server): what is accepted then is again a complete rendering.
 	Retry bool `json:"retry,omitempty"`
+	// CancelInData > 0 (DialAndSend only): the context the caller gave to DialAndSendWithContext is
+	// cancelled the moment the server has answered the DATA command of that message with 354. Whatever
+	// the client makes of it, the server never commits a fragment.
+	CancelInData int `json:"cancel_in_data,omitempty"`
 }
 
 // normDATA models what transmitting content through DATA does to it, byte for byte the way
@@ -150,9 +154,20 @@ func c03Run(c c03Case) []*core.Violation {
 		}
 	}
 	var sendErr, dialErr error
+	ctx := context.Background()
+	if c.CancelInData > 0 && c.DialAndSend {
+		var cancel context.CancelFunc
+		ctx, cancel = context.WithCancel(ctx)
+		defer cancel()
+		srv.DataHook = func(txn int) {
+			if txn == c.CancelInData {
+				cancel()
+			}
+		}
+	}
 	res := watchdog(20*time.Second, d, func() error {
 		if c.DialAndSend {
-			sendErr = cl.DialAndSendWithContext(context.Background(), msgs...)
+			sendErr = cl.DialAndSendWithContext(ctx, msgs...)
 			return nil
 		}
 		if dialErr = cl.DialWithContext(context.Background()); dialErr != nil {
@@ -245,12 +260,16 @@ func c03Run(c c03Case) []*core.Violation {
 		faults++
 		keys = append(keys, fmt.Sprintf("dropdata@%d", c.DropInData/100))
 	}
+	if c.CancelInData > 0 {
+		faults++
+		keys = append(keys, fmt.Sprintf("cancel@data#%d", c.CancelInData))
+	}
 	if (faults > 0 || nRenderFaults > 0) && reachedData {
 		var shapes []string
 		for i := range c.Msgs {
 			shapes = append(shapes, fmt.Sprintf("p%d/e%d/a%d/f%v", len(c.Msgs[i].Parts), len(c.Msgs[i].Embeds), len(c.Msgs[i].Attachments), renderFails[i]))
 		}
-		rec.NonTrivial(core.Join(strings.Join(shapes, ";"), strings.Join(keys, ","), c.DialAndSend, c.DeleteFile, c.Unsignable))
+		rec.NonTrivial(core.Join(strings.Join(shapes, ";"), strings.Join(keys, ","), c.DialAndSend, c.DeleteFile, c.Unsignable, c.CancelInData))
 		rec.Sample(fmt.Sprintf("%d/%d", faults, nRenderFaults), map[string]interface{}{"msgs": shapes, "reply_faults": keys, "render_faults": nRenderFaults, "commits": committed, "dial_and_send": c.DialAndSend})
 	}
 	rec.Class(fmt.Sprintf("replyfaults:%d", faults))
@@ -399,6 +418,9 @@ func c03Gen(t *rapid.T) c03Case {
 	if rapid.IntRange(0, 7).Draw(t, "unsignable") == 0 {
 		c.Unsignable = rapid.IntRange(1, n).Draw(t, "unsignablewhich")
 	}
+	if c.DialAndSend && rapid.IntRange(0, 5).Draw(t, "cancelindata") == 0 {
+		c.CancelInData = rapid.IntRange(1, n).Draw(t, "cancelwhich")
+	}
 	if rapid.IntRange(0, 3).Draw(t, "dropdata") == 0 {
 		c.DropData = true
 		c.DataTxn = rapid.IntRange(1, n).Draw(t, "droptxn")
@@ -421,7 +443,7 @@ func TestC03(t *testing.T) {
 	rec := core.Rec("C03")
 	rec.Rule = "batches of 1..4 generated message programs (0..2 parts, 0..1 embeds, 0..2 attachments; QP/base64/8bit) sent through the real Client (Send on a dialled client, or DialAndSend) to the reference server over in-memory connections, with " +
 		"render faults (one body/alternative/embed/attachment producer of a message failing before its first byte, after a prefix or after its last byte, armed only during the send; on-disk attachment files deleted between AttachFile and Send; a message given an S/MIME key the signer refuses at render time, so that rendering fails before the first byte), " +
-		"transport faults (connection dropped after k content bytes of a chosen DATA phase) and 0..3 non-ok replies (4yz, 5yz, drop, 421+close) at MAIL/RCPT/DATA/end-of-data/RSET/NOOP/QUIT positions. " +
+		"the caller's context cancelled the moment a DATA command was answered 354 (DialAndSendWithContext), transport faults (connection dropped after k content bytes of a chosen DATA phase) and 0..3 non-ok replies (4yz, 5yz, drop, 421+close) at MAIL/RCPT/DATA/end-of-data/RSET/NOOP/QUIT positions. " +
 		"TestC03Enum enumerates, for batches of 1, 2 and 3 messages (plain + html + attachment each): every step id x {4yz, 5yz, drop}; every producer x {before first byte, mid-content, after last byte}; for the batch of 3 every render fault of the middle message combined with every reply fault; and a connection drop at every 40th content byte. " +
 		"One history in two has a second act: every message that was not delivered is handed to DialAndSend again on the SAME Client once the faults are gone (a server that accepts everything); what is committed then is again the complete rendering, IsDelivered follows, and the call returns. Oracle from the server's commit log: every payload accepted at end-of-data is byte-identical to the harness' own WriteTo rendering of that Msg taken before the send (plus the final CRLF inherent to DATA), never a prefix; each Msg is committed at most once per call; IsDelivered() <=> a 2yz end-of-data reply for that Msg; a Msg whose rendering failed has a send error and no commit. " +
 		"Non-trivial: >= 1 non-ok reply or injected fault and at least one message reached an accepted DATA command. Distinct by (batch shapes, reply faults, drop position class, call kind)."
